@@ -468,7 +468,12 @@ func c16Replay(tr *kernel.Trace) *Outcome {
 		return o
 	}
 	if run.Chain.Halted != nil {
-		o.InfraErr = fmt.Errorf("preparing block halted: %s", run.Chain.Halted.Value)
+		// the block before the upgrade is an ordinary block of the (rewritten) chain: a halt there is a halt (C10's
+		// subject), never trouble of the harness
+		pi := run.Chain.Halted
+		o.Violations = append(o.Violations, &kernel.Violation{Property: "C10", Check: "upgrade-runs", Signature: "block-before-upgrade-halted:" + pi.Site(), Block: 0, TxIndex: -1,
+			Message: fmt.Sprintf("the block before the upgrade halted the chain: %s", firstLineOf(pi.Value))})
+		o.Stats.Merge(&run.Stats)
 		return o
 	}
 	// block 1: the upgrade executes in BeginBlock; checks run on the deliver state right after it
